@@ -4,7 +4,82 @@ import json
 
 from mammoth import html
 
-from .. import gen_html, oracle_html as O, terms as T
+from mammoth.docx.xmlparser import element as X, text as XT
+
+from .. import apilevel as A, docx_builder as B, gen_html, gen_xml, oracle_html as O, terms as T
+
+# through the public API: paragraphs and runs whose styles are mapped to nested NON-fresh paths (two run styles share one
+# path), with empty runs and empty paragraphs in between; unmapped paragraphs become the default fresh p
+API_MAP = "\n".join(["p.Q => blockquote > div.q", "p.C => pre:separator('\\n')", "p.D => div.q", "p.N => ul|ol > li",
+                      "r.X => span.x", "r.Y => em > span.y", "r.Z => span.x", "r.W => em"])
+API_PSTYLES = [None, None, "Q", "Q", "C", "C", "D", "N"]
+API_RSTYLES = [None, "X", "X", "Y", "Z", "W"]
+
+
+def api_doc(rng):
+    paras = []
+    for _ in range(rng.randint(1, 6)):
+        ps = rng.choice(API_PSTYLES)
+        kids = [X("w:pPr", {}, [X("w:pStyle", {"w:val": ps})])] if ps else []
+        for _ in range(rng.choice([0, 1, 2, 3, 4])):
+            rs = rng.choice(API_RSTYLES)
+            rk = [X("w:rPr", {}, [X("w:rStyle", {"w:val": rs})])] if rs else []
+            t = rng.choice(["", "", "a", "b c", " "])
+            if t or rng.random() < 0.5:
+                rk.append(X("w:t", {}, [XT(t)] if t else []))
+            kids.append(X("w:r", {}, rk))
+        paras.append(X("w:p", {}, kids))
+    return paras
+
+
+def unmerged_siblings(forest):
+    """two adjacent sibling elements with the same name and attributes, other than the default (fresh) p"""
+    prev = None
+    for n in forest:
+        if "name" in n:
+            if prev is not None and n["name"] != "p" and prev["name"] == n["name"] and prev["attrs"] == n["attrs"]:
+                return n["name"], n["attrs"]
+            r = unmerged_siblings(n["children"])
+            if r:
+                return r
+            prev = n
+        else:
+            prev = None
+    return None
+
+
+def api_stream(ctx, dist):
+    rng = ctx.rng
+    terms, metas = [], []
+    styles = [X("w:style", {"w:type": "paragraph", "w:styleId": s}, [X("w:name", {"w:val": "Style " + s})]) for s in "QCDN"] + \
+             [X("w:style", {"w:type": "character", "w:styleId": s}, [X("w:name", {"w:val": "Char " + s})]) for s in "XYZW"]
+    for i in range(600 if ctx.thorough else 80):
+        pkg = gen_xml.Package()
+        pkg.styles = styles
+        pkg.body = api_doc(rng)
+        opts = {"style_map": API_MAP, "include_default_style_map": False, "include_embedded_style_map": True,
+                "ignore_empty_paragraphs": rng.random() < 0.7, "id_prefix": None, "conv": "data_uri"}
+        data, parts = B.build(pkg)
+        html_, raw = A.run_impl(data, opts, None)
+        ctx.count()
+        dist["api_documents"] = dist.get("api_documents", 0) + 1
+        meta = {"api": "mammoth.convert_to_html", "package": gen_xml.pkg_json(pkg), "options": opts}
+        if isinstance(html_, Exception):
+            ctx.violation("oracle", "conversion raised %r" % html_, meta, True)
+        else:
+            # with ignore_empty_paragraphs=False every paragraph starts with an invisible force-write marker, which legitimately
+            # keeps the last element of one paragraph and the first of the next apart: the adjacency rule is checked without it
+            bad = unmerged_siblings(O.strict_parse(html_.value)) if opts["ignore_empty_paragraphs"] else None
+            if bad:
+                ctx.violation("oracle", "adjacent sibling elements <%s %s> that are not :fresh were not merged" % bad,
+                              dict(meta, observed=html_.value[:600]), True)
+            elif "</span><em>" in html_.value or "</em><span" in html_.value:
+                ctx.nontrivial("api%d" % i)
+        terms.append(A.case_term(parts, False, {}, opts, html_, raw))
+        metas.append(meta)
+    for i in ctx.coq_eval("c04api", A.HEADER, terms, A.CASE_TYPE, "chk_api", shard=10)[:5]:
+        ctx.violation("correspondence", "model and implementation disagree on a document converted through the public API",
+                      dict(metas[i], obligation="correspondence Model/Api.v vs mammoth.convert_to_html"), False)
 
 HEADER = """From Mammoth Require Import Html.
 Local Open Scope N_scope.
@@ -80,6 +155,7 @@ def run(ctx):
         ctx.violation("correspondence", "model and mammoth.html.collapse disagree",
                       {"obligation": "correspondence Model/Html.v:collapse vs mammoth.html.collapse",
                        "input": metas[i]}, False)
+    api_stream(ctx, dist)
     ctx.coverage["traces_validated_against_impl"] = limit
     ctx.coverage["exhaustive"] = True
     ctx.coverage["rule"] = ("all forests with <= %d nodes over %d tags x leaves (exhaustive), then random forests of 1..14 nodes; "
@@ -92,6 +168,13 @@ def run(ctx):
 
 
 def replay(ctx, rep):
+    if rep["replay"].get("api") == "mammoth.convert_to_html":
+        pkg = gen_xml.pkg_from_json(rep["replay"]["package"])
+        data, _ = B.build(pkg)
+        html_, _ = A.run_impl(data, rep["replay"]["options"], None)
+        bad = isinstance(html_, Exception) or (rep["replay"]["options"]["ignore_empty_paragraphs"] and unmerged_siblings(O.strict_parse(html_.value)))
+        print("replay:", ("violated: %r" % (bad,)) if bad else "property holds on this input")
+        return 1 if bad else 0
     inp = rep["replay"]["input"]
     forest = [T.node_from_json(j) for j in inp]
     i, out, out2, inp_after, _ = observe(forest)
